@@ -14,6 +14,10 @@ import (
 func init() {
 	registry["DEBUG"] = func(c *Ctx) {
 		p := c.Prog("amd64")
+		if v := os.Getenv("DBGDECODE"); v != "" {
+			x := strings.Split(v, "|")
+			debugDecode(p, x[0], x[1], x[2])
+		}
 		if os.Getenv("DBGRMW") != "" {
 			surveyRMW(p)
 		}
